@@ -109,4 +109,22 @@ CHECKS = {
         "note": "Known finding C19:cylindrical-vector-to-cartesian:order(r,phi,z) (pinned by an existing test) is reported as KNOWN-FINDING while it reproduces; any other deviation at that call site is a violation; conversion fill values restricted to nan/0.",
         "technique": "property-based testing with textbook references and metamorphic single-component probes (Hypothesis)",
     },
+    "C01": {
+        "text": "Two deciding searches. (a) Stencil equivalence: for generated grids of every class (hole/no hole, periodic, anisotropic), every registered operator with its documented options and the d_d<ax>/d2_d<ax>2 patterns, on the numba backend (real JIT + interpreted-source pass) and the scipy backend, the raw operator applied to padded inputs (dense random, one-hot incl. ghost and corner cells, integer; real/complex) equals NumPy reference stencils written from the coordinate-form formulas, component by component, within eps*sum|w||u|*(64+16 kappa). (b) Convergence to the continuum operator: rotation-invariant smooth test fields are defined in the Cartesian embedding, sampled exactly (ghost cells too), and the continuum value is obtained by 6th-order finite differences of the embedded callable and projection on the harness' own bases; observed orders over N, 2N, 4N (refined further before a violation is declared) must reach 1.7 (central) / 0.8 (one-sided; cylindrical vector Laplacian near the axis) in the stated regions. Exploration: held on all generated cases.",
+        "ref": "DESIGN.md section 4, C01 (oracle of part (b) as described in section 10)",
+        "note": "Two known findings (spherical conservative tensor_divergence / tensor_double_divergence in the cells adjoining the origin) are judged against their characterised behaviour and reported as KNOWN-FINDING while they reproduce; consistency is judged by observed orders on three or more resolutions (a consistent stencil with a large constant passes); spectral and 9-point Laplacians are not exercised.",
+        "technique": "property-based testing against reference stencils (exact) and a Cartesian-embedding continuum oracle (convergence orders) (Hypothesis)",
+    },
+    "C10": {
+        "text": "For generated (equation class of the 8 predefined ones or expression PDE with 1-3 fields, operators, explicit t, coordinates, scalar/field constants, bc and per-operator bc_ops; parameters incl. 0, +-1 and 6-digit values; grid; independent boundary assignments per BC argument incl. time-dependent ones; state; time): evolution_rate, make_pde_rhs on the numba backend (interpreted-source breadth + real-JIT sample) and numpy backend, a generic PDE built from the class's own expression text (judged against the documented equation with the factors exactly as %g prints them, under the stated comparability restrictions), and an independent evaluation of the generating terms through the field API must agree. Exploration: held on all generated cases.",
+        "ref": "DESIGN.md section 4, C10",
+        "note": "Route C (advertised expression) is compared only where the expression PDE can state the same problem (nested Laplacians only with linear-homogeneous conditions); noise excluded; real states; vector fields on Cartesian grids.",
+        "technique": "differential property-based testing across rate implementations plus an independent term-by-term evaluation (Hypothesis)",
+    },
+    "C11": {
+        "text": "Random expression trees over the frozen supported grammar (arithmetic, integer/real powers, elementary and special functions, heaviside/comparisons, Mod, constants, user functions, indexed variables, aliases) with domain guards so that the formula is well-conditioned by construction, rendered to text in several syntactic shapes and evaluated by an independent NumPy tree evaluator; compared elementwise (64 eps x forward error bound) with ScalarExpression call, numpy and numba functions (real JIT + interpreted-source pass), single_arg, TensorExpression, fields from expressions on all grid classes, evaluate(), parse_number; symbolic derivatives against forward-mode derivatives of the tree. Exploration: held on all generated cases.",
+        "ref": "DESIGN.md section 4, C11",
+        "note": "Only the grammar both routes accept (erf numpy-only); derivatives only for differentiable trees of depth <= 3; sympy.simplify time-outs (> 6 s) are skipped; real float64 arguments.",
+        "technique": "grammar-based property-based testing against an independent evaluator (Hypothesis)",
+    },
 }
